@@ -44,7 +44,7 @@ func (o *SQLOpts) class(c string) {
 }
 
 var tableWords = []string{"Item", "Client", "Event", "Token", "Ledger", "Entry", "Label", "Point", "Route", "Score", "Phase", "Grade",
-	"Color", "Level", "State", "Basket", "Ticket", "Parcel", "Device", "Garden", "Planet", "Camp", "Meal", "Song"}
+	"Color", "Level", "State", "Basket", "Ticket", "Parcel", "Device", "Garden", "Planet", "Camp", "Meal", "Song", "HTTPLog", "APIKey"}
 
 var colWords = []string{"Name", "Value", "Count", "Size", "Title", "Body", "Owner", "Rank", "Width", "Height", "Amount", "Code", "Flag",
 	"Note", "Total", "Ratio", "Start", "Stop", "First", "Last", "Inner", "Outer", "Data", "Meta", "Extra", "Path", "Weight", "Speed", "Stock"}
